@@ -72,7 +72,8 @@ class C06(common.Prop):
         rng = ctx.rng
         out = []
         while len(out) < n:
-            c = molgen.layered_case(rng, nmax=rng.choice([5, 8, 10]), coarse_last=rng.random() < 0.3)
+            c = molgen.layered_case(rng, nmax=rng.choice([5, 8, 10]), coarse_last=rng.random() < 0.3,
+                                    squash=rng.random() < 0.4)
             if c is None:
                 continue
             # a history on ONE resolver object, beyond the three fresh ways
@@ -191,7 +192,8 @@ class C06(common.Prop):
         return 0
 
     def case_class(self, case, impl):
-        return 'levels=%s %s' % (case.get('levels'), 'coarse-last' if case['coarse_last'] else 'atomistic-last')
+        return 'levels=%s %s%s' % (case.get('levels'), 'coarse-last' if case['coarse_last'] else 'atomistic-last',
+                                   ' shared-node' if case.get('squash') else '')
 
     def nontrivial(self, case, impl):
         return case.get('nparts', 2) >= 2
